@@ -155,12 +155,18 @@ def _task(item):
   if os.path.exists(tpath):
     os.unlink(tpath)
   os.environ["AI_EDGE_QUANTIZER_VERIF_TRACE"] = tpath       # hook H2: one event per applied instruction
+  ppath = os.path.join(tlc.WORK, "plan_%d.ndjson" % os.getpid())
+  if os.path.exists(ppath):
+    os.unlink(ppath)
+  os.environ["AI_EDGE_QUANTIZER_VERIF_PLAN_TRACE"] = ppath  # hook H4: the instruction plan the generator hands to the performer
   try:
     if item.get("fixture"):
       impl = run_fixture(item["fixture"], scn, item["info"])
     else:
       impl = pipeline.run_impl(scn, seed=item.get("seed", 0))
     out["events"] = [json.loads(x) for x in open(tpath)] if os.path.exists(tpath) else []
+    plans = [json.loads(x) for x in open(ppath)] if os.path.exists(ppath) else []
+    out["plan"] = plans[-1] if plans else []      # (one quantize() call per scenario)
   except synth.Unrealisable as e:
     out["unreal"] = str(e)
     return out
@@ -290,7 +296,7 @@ def validate_traces(name, results, workers=16, timeout=3600):
   idx = [i for i, r in enumerate(results) if r.get("events") is not None and r.get("unreal") is None and r.get("outcome") in ("done", "raised")]
   if not idx:
     return 0, [], None
-  scns, traces = [], []
+  scns, traces, plans = [], [], []
   for i in idx:
     scn = results[i]["scn"]
     clean = {k: scn[k] for k in ("subs", "mode", "inmode", "outmode")}
@@ -300,11 +306,13 @@ def validate_traces(name, results, workers=16, timeout=3600):
       sub.setdefault("sigrev", False)
     scns.append(clean)
     traces.append(results[i]["events"])
-  sp, tp = os.path.join(tlc.WORK, name + "_scns.json"), os.path.join(tlc.WORK, name + "_traces.json")
+    plans.append(results[i].get("plan") or [])
+  sp, tp, pp = os.path.join(tlc.WORK, name + "_scns.json"), os.path.join(tlc.WORK, name + "_traces.json"), os.path.join(tlc.WORK, name + "_plans.json")
   json.dump(scns, open(sp, "w"))
   json.dump(traces, open(tp, "w"))
+  json.dump(plans, open(pp, "w"))
   c = configs.cfg(1, ["FC"], [configs.NOQ], [configs.NOQ], [configs.NOQ])
-  r = tlc.run(name, "PipelineTrace", c, constraints=["EmitT"], spec_name="TraceSpec", workers=workers, env={"SCN_FILE": sp, "TRACE_FILE": tp},
+  r = tlc.run(name, "PipelineTrace", c, constraints=["EmitT"], spec_name="TraceSpec", workers=workers, env={"SCN_FILE": sp, "TRACE_FILE": tp, "PLAN_FILE": pp},
               extends="PipelineTrace", timeout=timeout)
   best = {}
   for line in r.printed("TVERDICT"):
